@@ -48,7 +48,9 @@ let att_text (a : kd_dec_att) =
   let w = dt_width (int_of_z d.ad_dt) in
   Printf.sprintf "%s.%s.%s.%d.%s.%s%s" (string_of_z d.ad_type) (string_of_z d.ad_dt) (string_of_z d.ad_nc)
     (if d.ad_norm then 1 else 0) (string_of_z d.ad_uid) (hex_of_vals w (List.concat a.kda_rows))
-    (match a.kda_tdata with None -> "" | Some _ -> ".T")
+    (match a.kda_tdata with None -> "" | Some p ->
+       ".T" ^ string_of_z p.qp_bits ^ String.concat "" (List.map (fun m -> "," ^ string_of_z (bits_of_f32 m)) p.qp_min)
+       ^ "," ^ string_of_z (bits_of_f32 p.qp_range))
 
 let () = run_driver (function
   | ["kt"; level; dim; bl; pts] ->
@@ -60,8 +62,12 @@ let () = run_driver (function
      | Some (pts, rest) -> Printf.sprintf "ok %d %s %d" (List.length pts) (pts_text pts) (List.length rest))
   | "kpc" :: speed :: np :: _na :: atts ->
     enc_result (kd_enc_pc (z speed) (z np) (List.map parse_att atts))
-  | ["kdpc"; h] ->
-    (match kd_dec_pc_stream (fun _ -> false) (bytes_of_hex h) with
+  | ("kdpc" :: _ | "kdpcs" :: _) as toks ->
+    let (skips, h) = (match toks with
+      | ["kdpc"; h] -> ([], h)
+      | ["kdpcs"; sk; h] -> (List.map z (split ',' sk), h)
+      | _ -> failwith "kdpc") in
+    (match kd_dec_pc_stream (fun t -> List.exists (fun s -> int_of_z s = int_of_z t) skips) (bytes_of_hex h) with
      | KFail -> "fail"
      | KUB -> "UB"
      | KOk (pc, rest) ->
